@@ -3,10 +3,11 @@
    Packet / StanzaType / IQNamespaces, iqNotImplemented and IQ.MakeError
    (stanza/iq.go).  Executable definitions only.
 
-   Strings are BYTES (Go compares strings with ==, i.e. byte-wise).  The builder
-   methods lower-case their arguments with strings.ToLower; the model lower-cases
-   ASCII letters only, so builder arguments are restricted to ASCII (the harness
-   generates ASCII arguments only).  Packet fields are arbitrary bytes: they are
+   Strings are BYTES (Go compares strings with ==, i.e. byte-wise).  Packet and
+   StanzaType lower-case their arguments with strings.ToLower; the model lower-cases
+   ASCII letters only, so those arguments are restricted to ASCII (the harness
+   generates ASCII arguments only).  IQNamespaces keeps its arguments verbatim:
+   namespace names are case-sensitive.  Packet fields are arbitrary bytes: they are
    only ever compared, never transformed.
 
    Out of this model: stanza.SMAnswer packets (C10), the concurrency of the
@@ -28,6 +29,7 @@ Definition s_normal : str := [110;111;114;109;97;108].
 Definition s_get : str := [103;101;116].
 Definition s_set : str := [115;101;116].
 Definition s_error : str := [101;114;114;111;114].
+Definition s_result : str := [114;101;115;117;108;116].
 Definition s_feature_not_implemented : str :=
   [102;101;97;116;117;114;101;45;110;111;116;45;105;109;112;108;101;109;101;110;116;101;100].
 
@@ -38,9 +40,10 @@ Record attrs := { a_type : str; a_id : str; a_from : str; a_to : str }.
 Inductive pkt :=
 | PMessage (a : attrs)                  (* stanza.Message (value) *)
 | PPresence (a : attrs)                 (* stanza.Presence (value) *)
-| PIQ (a : attrs) (ns : option str) (any : bool)
-    (* *stanza.IQ; ns = Some (Payload.Namespace()) when Payload is non-nil,
-       None when Payload is nil; any = the generic Any node is non-nil *)
+| PIQ (a : attrs) (ns : option str) (any : option str)
+    (* *stanza.IQ; ns = Some (Payload.Namespace()) when Payload is non-nil, None when
+       Payload is nil; any = Some (Any.Namespace()) when the generic Any node (a payload
+       whose type is not in the stanza registry) is non-nil *)
 | POther (k : N).                       (* any other packet but SMAnswer: SMRequest,
                                            StreamFeatures, StreamError, ...; k only
                                            tells the harness which one *)
@@ -51,10 +54,10 @@ Inductive matcher :=
 | MType (l : list str)     (* nsTypeMatcher *)
 | MNs (l : list str).      (* nsIQMatcher *)
 
-(* Route.Packet / Route.StanzaType / Route.IQNamespaces *)
+(* Route.Packet / Route.StanzaType (lower-cased) / Route.IQNamespaces (verbatim) *)
 Definition b_packet (name : str) : matcher := MName (lower name).
 Definition b_stanza_type (types : list str) : matcher := MType (map lower types).
-Definition b_iq_namespaces (nss : list str) : matcher := MNs (map lower nss).
+Definition b_iq_namespaces (nss : list str) : matcher := MNs nss.   (* verbatim copy *)
 
 Definition route := list matcher.      (* the handler is identified by the position in the table *)
 Definition table := list route.
@@ -84,14 +87,23 @@ Definition stanza_type (p : pkt) : option str :=
   | POther _ => None
   end.
 
+(* the namespace of an IQ's payload: the typed Payload if there is one, else the
+   generic Any node *)
+Definition iq_namespace (ns any : option str) : option str :=
+  match ns with Some n => Some n | None => any end.
+
 Definition m_match (m : matcher) (p : pkt) : bool :=
   match m with
   | MName n => str_eqb (kind_name p) n
   | MType l => match stanza_type p with Some t => in_arr l t | None => false end
   | MNs l =>
       match p with
-      | PIQ _ (Some ns) _ => in_arr l ns
-      | _ => false            (* not an IQ, or Payload == nil *)
+      | PIQ _ ns any =>
+          match iq_namespace ns any with
+          | Some n => in_arr l n
+          | None => false     (* no payload at all *)
+          end
+      | _ => false            (* not an IQ *)
       end
   end.
 
@@ -130,7 +142,7 @@ Definition err_reply (a : attrs) : reply := make_error a s_feature_not_implement
 
 (* ---- Router.route ---- *)
 Inductive event :=
-| EDeliver (a : attrs)     (* IQ copied to the channel of the pending SendIQ request with its id *)
+| EDeliver (a : attrs)     (* IQ result/error copied to the channel of the pending SendIQ request with its id *)
 | EHandle (i : nat)        (* HandlePacket of route i called *)
 | ESend (r : reply).       (* Sender.Send called by the router itself *)
 
@@ -141,10 +153,15 @@ Fixpoint remove_id (id : str) (pend : list str) : list str :=
   | x :: pend' => if str_eqb x id then remove_id id pend' else x :: remove_id id pend'
   end.
 
-Definition pending_hit (pend : list str) (p : pkt) : bool :=
-  match p with PIQ a _ _ => in_arr pend (a_id a) | _ => false end.
-
 Definition is_request (t : str) : bool := str_eqb t s_get || str_eqb t s_set.
+(* only a response can answer a pending request *)
+Definition is_response (t : str) : bool := str_eqb t s_result || str_eqb t s_error.
+
+Definition pending_hit (pend : list str) (p : pkt) : bool :=
+  match p with
+  | PIQ a _ _ => if is_response (a_type a) then in_arr pend (a_id a) else false
+  | _ => false
+  end.
 
 (* the part of route() after the IQ-result lookup *)
 Definition route_ordinary (t : table) (p : pkt) : list event :=
@@ -161,7 +178,7 @@ Definition route_ordinary (t : table) (p : pkt) : list event :=
 Definition do_route (t : table) (pend : list str) (p : pkt) : list event * list str :=
   match p with
   | PIQ a _ _ =>
-      if in_arr pend (a_id a) then ([EDeliver a], remove_id (a_id a) pend)
+      if pending_hit pend p then ([EDeliver a], remove_id (a_id a) pend)
       else (route_ordinary t p, pend)
   | _ => (route_ordinary t p, pend)
   end.
